@@ -131,14 +131,21 @@ pub fn run(tier: Tier) -> Report {
             name: "char-soup",
             alpha: sigma_char(false),
             max_text: tier.pick(4, 5),
-            max_repl: tier.pick(1, 2),
+            max_repl: 1,
             sep: "",
         },
         Family {
             name: "char-soup-wide-repl",
             alpha: sigma_char(false),
             max_text: tier.pick(3, 4),
-            max_repl: tier.pick(2, 3),
+            max_repl: 2,
+            sep: "",
+        },
+        Family {
+            name: "char-soup-widest-repl",
+            alpha: sigma_char(false),
+            max_text: tier.pick(2, 3),
+            max_repl: 3,
             sep: "",
         },
         Family {
